@@ -235,21 +235,6 @@ theorem timestamp_nanos_opt_eq (ts sub : Int) (h0 : 0 ≤ sub) (h1 : sub < 10000
     timestamp_nanos_opt ts sub = optI64 (ts * 1000000000 + sub) := by
   unfold timestamp_nanos_opt
   simp only [STAMP_SCALE]
-  by_cases hneg : ts < 0
-  · simp only [if_pos hneg]
-    by_cases hin : -9223372036854775808 ≤ (ts + 1) * 1000000000 ∧ (ts + 1) * 1000000000 ≤ 9223372036854775807
-    · rw [optI64_some hin.1 hin.2]
-      simp only
-      congr 1; omega
-    · rw [optI64_none (by omega)]
-      simp only
-      rw [optI64_none (by omega)]
-  · simp only [if_neg hneg]
-    by_cases hin : -9223372036854775808 ≤ ts * 1000000000 ∧ ts * 1000000000 ≤ 9223372036854775807
-    · rw [optI64_some hin.1 hin.2]
-    · rw [optI64_none (by omega)]
-      simp only
-      rw [optI64_none (by omega)]
 
 /-! ### sub-second rounding -/
 
